@@ -5,19 +5,20 @@
 (* and releases it.  The design choice is the constant SetHoldsLock: when  *)
 (* FALSE the `set` helper copies the session under the lock, releases it,  *)
 (* runs the setter on the copy and swaps the copy in under the lock again  *)
-(* (seeded defect C12-m2).  TLC checks that every concurrent history of    *)
-(* two operations ends in a state, and returns results, that SOME          *)
-(* sequential order of the two operations produces (serializability of     *)
-(* pairs; the real store is checked for linearizability of longer          *)
-(* histories by LinTrace.tla).                                             *)
+(* (seeded defect C12-m2).  TLC checks that every concurrent history of N  *)
+(* operations (every choice of operations, every interleaving of their     *)
+(* critical sections) ends in a state, and returns results, that SOME      *)
+(* sequential order of the N operations produces (serializability; the     *)
+(* real store is checked for linearizability of longer recorded histories  *)
+(* by LinTrace.tla, and for unlocked accesses by the race build).          *)
 (***************************************************************************)
 EXTENDS Integers, Sequences, FiniteSets, TLC
 
-CONSTANTS SetHoldsLock
+CONSTANTS SetHoldsLock, N
 
-Ops == {"SetTok", "SetAuth", "GetAuth", "ClearAuth", "Remove"}
+Ops == {"SetTok", "SetAuth", "GetAuth", "GetTok", "ClearAuth", "Remove"}
 None == [ex |-> FALSE, auth |-> 0, tok |-> 0]
-Threads == {1, 2}
+Threads == 1..N
 
 VARIABLES s,      \* the session under the single id used (ids do not interact: one map entry each)
           mu,     \* lock holder (0 = free)
@@ -30,6 +31,7 @@ Apply(o, t, x) ==
   CASE o = "SetTok"    -> <<[ex |-> TRUE, auth |-> x.auth, tok |-> t], 0>>
     [] o = "SetAuth"   -> <<[ex |-> TRUE, auth |-> t, tok |-> x.tok], 0>>
     [] o = "GetAuth"   -> <<x, x.auth>>
+    [] o = "GetTok"    -> <<x, x.tok>>
     [] o = "ClearAuth" -> <<IF x.ex THEN [x EXCEPT !.auth = 0] ELSE x, 0>>
     [] o = "Remove"    -> <<None, 0>>
 
@@ -56,12 +58,19 @@ Swap(t) == /\ pc[t] = "swap" /\ mu = 0
 Next == \E t \in Threads : Whole(t) \/ Snapshot(t) \/ Swap(t)
 Spec == Init /\ [][Next]_vars
 
-\* both sequential orders of the two operations from the initial session
-Order(a, b) == LET r1 == Apply(op[a], a, init)
-                 r2 == Apply(op[b], b, r1[1])
-             IN [final |-> r2[1], ra |-> r1[2], rb |-> r2[2]]
+\* every sequential order of the N operations from the initial session
+RECURSIVE Run(_, _, _)
+Run(order, k, acc) ==
+  IF k > N THEN acc
+  ELSE LET t == order[k]
+           r == Apply(op[t], t, acc.s)
+       IN Run(order, k + 1, [s |-> r[1], res |-> [acc.res EXCEPT ![t] = r[2]]])
 Serializable ==
   (\A t \in Threads : pc[t] = "done") =>
-     \/ (LET q == Order(1, 2) IN s = q.final /\ res[1] = q.ra /\ res[2] = q.rb)
-     \/ (LET q == Order(2, 1) IN s = q.final /\ res[2] = q.ra /\ res[1] = q.rb)
+     \E p \in Permutations(Threads) :
+        LET q == Run(p, 1, [s |-> init, res |-> [t \in Threads |-> 0]]) IN s = q.s /\ res = q.res
+\* the lock is never needed by a finished operation, and every operation finishes (no state without a successor
+\* before all are done): checked as deadlock freedom with the terminal states excluded
+Done == \A t \in Threads : pc[t] = "done"
+Terminating == Done \/ ENABLED Next
 =============================================================================
